@@ -154,6 +154,8 @@ func newInst(s *vdrv.Scenario) vdrv.Instance {
 	in := &inst{kind: s.Kind, iters: make([]queue.Iterator, len(s.Threads))}
 	if s.Kind == "mutex" {
 		in.q = queue.NewQueue(queue.MutexLinkedQueueType)
+	} else if k := s.OptInt("qtype", -1); k >= 0 {
+		in.q = queue.NewQueue(queue.Type(k)) // any Type but MutexLinkedQueueType: the lock-free queue
 	} else if len(s.Prefill)%3 == 1 {
 		in.q = queue.DefaultQueue() // documented default: the lock-free queue
 	} else {
